@@ -235,7 +235,9 @@ class Gen:
     def mutate(self, c, depth=0):
         r = self.rng
         k = c[0]
-        choices = ["same", "not", "notnot", "ne0", "eq0", "and_atom", "or_atom", "fresh", "deepswap", "deepswap"]
+        choices = ["same", "not", "notnot", "ne0", "eq0", "and_atom", "or_atom", "deepswap", "deepswap"]
+        if r.random() < 0.05:
+            choices.append("fresh")
         if k == "bin" and c[1] in CMPS:
             choices += ["negcmp", "flipswap", "negflip", "othercmp", "const", "const", "respell", "swapraw", "sub", "eq1", "ne1", "boolk"] * 2
         if k == "bin" and c[1] in ("land", "lor"):
@@ -612,21 +614,79 @@ def classify_rel(rel, flags):
     return None
 
 
+def c_eval_closed(n):
+    """(type, value) of a constant harness subtree under C semantics (LP64); None = variable inside, undefined behaviour or
+    an operator this little evaluator does not know"""
+    def wrap(t, v):
+        _, bits, sg = TYPES[t]
+        v %= (1 << bits)
+        return v - (1 << bits) if sg and v >= (1 << (bits - 1)) else v
+    if n.kind == "L":
+        return lit_type_value(core.unhx(n.what).decode("latin-1"))
+    if n.kind == "V":
+        return None
+    ks = [c_eval_closed(k) for k in n.kids]
+    if any(k is None for k in ks):
+        return None
+    if n.kind == "U":
+        t, v = ks[0]
+        if n.what == "lnot":
+            return "s3", int(v == 0)
+        t = promote_t(t)
+        r = -v if n.what == "neg" else ~v
+        if t[0] == "s" and not (tmin(t) <= r <= tmax(t)):
+            return None
+        return t, wrap(t, r)
+    (ta, va), (tb, vb) = ks
+    op = n.what
+    if op in ("land", "lor"):
+        return "s3", int((va != 0 and vb != 0) if op == "land" else (va != 0 or vb != 0))
+    if op in ("shl", "shr", "div", "mod"):
+        return None
+    t = uac_t(ta, tb)
+    x, y = wrap(t, va), wrap(t, vb)
+    if op in CMPS:
+        return "s3", int({"lt": x < y, "le": x <= y, "gt": x > y, "ge": x >= y, "eq": x == y, "ne": x != y}[op])
+    r = {"add": x + y, "sub": x - y, "mul": x * y, "band": x & y, "bor": x | y, "bxor": x ^ y}.get(op)
+    if r is None:
+        return None
+    if t[0] == "s" and not (tmin(t) <= r <= tmax(t)):
+        return None
+    return t, wrap(t, r)
+
+
+def known_differs_from_c_value(n):
+    """a constant, non-literal operand whose Known value (annotation k) is not its C value (as `long long`)"""
+    if n.kind == "L" or n.k == "-":
+        return False
+    tv = c_eval_closed(n)
+    if tv is None:
+        return False
+    v = tv[1]
+    v64 = ((v + (1 << 63)) % (1 << 64)) - (1 << 63)
+    return int(n.k) != v64
+
+
+def signed_operand_in_or_chain(n):
+    """a non-literal operand with a signed value type below a chain of `|` (the class of F03d: `comparison()` tests the sign
+    of the first operand of the top `|` only)"""
+    if n.kind == "B" and n.what == "bor":
+        return any(signed_operand_in_or_chain(k) for k in n.kids)
+    return n.kind != "L" and n.vt.startswith("s")
+
+
 def classify_finding(fid, msg, cmpnode, src, flag):
-    """known-finding key of a refuted in-process finding.  Inside the domain of a theorem (outOfTypeRange_sound:
-    annOK, cmpSafe, vtOK; bitand_compare_sound: `&`, Known value on the right, annOK, cmpSafe) a refutation is never a
-    known class."""
-    def closed(n):
-        return n.kind != "V" and all(closed(k) for k in n.kids)
-    def wraps(n):
-        return (n.kind == "B" and n.what in ("add", "sub", "mul") and n.vt.startswith("u")) or any(wraps(k) for k in n.kids)
-    if any(k.kind != "L" and closed(k) and wraps(k) for k in cmpnode.kids):
+    """known-finding key of a refuted in-process finding.  Inside the domain of a theorem (range_finding_sound_partial:
+    annOK, cmpSafe, vtOK; comparison_finding_sound_partial: covered bit test, annOK, cmpSafe) a refutation is never a known
+    class; the classes are narrowed to their failing inputs."""
+    if any(known_differs_from_c_value(k) for k in cmpnode.kids):
         # the Known value of an unsigned constant expression is folded in 64 bits without wrap-around (C01 F5)
         return "F03f:constant-folded-without-unsigned-wrap"
     if fid == "compareValueOutOfTypeRangeError":
         return "F03e:compareValueOutOfTypeRange-inexact-comparison" if flag[1] == "F" else None
     if fid == "comparisonError":
-        if "(X |" in msg or flag[1] == "F":
+        bit = cmpnode.kids[1] if cmpnode.kids[0].k != "-" else cmpnode.kids[0]
+        if flag[1] == "F" or ("(X |" in msg and signed_operand_in_or_chain(bit)):
             return "F03d:comparison-bitop-inexact"
     return None
 
@@ -827,7 +887,9 @@ def run_inprocess(ctx, res, n_pairs, n_inputs, corpus):
                         break
                 else:
                     a = val("cmp@%d" % cl[4].col, j)
-                    if a[0] == "ub" or a[1] == 2:
+                    # the condition around the node must be UB-free as well (judged by gcc and by the Lean semantics: gcc
+                    # folds some overflowing operations away)
+                    if a[0] == "ub" or a[1] == 2 or val("cond%d" % cl[5], j)[0] == "ub":
                         continue
                     checked += 1
                     if (a[1] != 0) != cl[3]:
@@ -1337,12 +1399,58 @@ PAIR_IDS = {"oppositeInnerCondition", "identicalInnerCondition", "overlappingInn
             "multiCondition", "incorrectLogicOperator"}
 
 
+def node_vars(n, out=None):
+    if out is None:
+        out = set()
+    if n.kind == "var":
+        out.add(n.text)
+    for k in n.kids:
+        node_vars(k, out)
+    return out
+
+
+def relevant_hazards(node, f):
+    """hazards of the conditions the flagged node's verdict can depend on: its own condition, every condition of the function
+    that shares a variable with it, and the assignments to those variables (with the variables on their right-hand sides)"""
+    ptypes = dict(f["params"])
+    root = node
+    while root.parent is not None:
+        root = root.parent
+    conds, assigns = [], []
+    def walk(sts):
+        for st in sts:
+            if st[0] == "seq":
+                walk(st[1])
+            elif st[0] == "if":
+                conds.append(st[1])
+                walk(st[2])
+                if st[3]:
+                    walk(st[3])
+            elif st[0] == "raw":
+                m = re.match(r"^([a-d])\s*(=|-=|\+\+)(.*)$", st[1])
+                if m:
+                    assigns.append((m.group(1), set(re.findall(r"\b[a-d]\b", m.group(3)))))
+    walk(f["stmts"])
+    V = node_vars(root)
+    for lhs, rhs in assigns:
+        if lhs in V:
+            V = V | rhs
+    out = set()
+    for c in conds:
+        if c is root or (node_vars(c) & V):
+            hazards(c, ptypes, out)
+    for lhs, rhs in assigns:
+        if lhs in V and ptypes[lhs] not in ("s3", "s4"):
+            out.add("assignment-to-narrow-or-unsigned")
+    return out
+
+
 def classify_cli(cl, f, lines):
     """known-finding key of a refuted CLI verdict (None = not a listed class: reported as a new violation).
-    The former classes F03a (isSameExpression), F03c (Known value on the left of a bit test) and F03i (`k - x`, `x * k`
-    in a condition) are fixed in the code and are no classes any more."""
-    ptypes = dict(f["params"])
-    hz = func_hazards(f["stmts"], ptypes)
+    The excuse is granted per flagged node (`relevant_hazards`), not per function.  The former classes F03a
+    (isSameExpression), F03c (Known value on the left of a bit test) and F03i (`k - x`, `x * k` in a condition) are fixed
+    in the code and are no classes any more."""
+    hz = relevant_hazards(cl["node"], f)
     conv = hz - {"bool-compared-with-int", "const-minus-expr", "mul-by-const"}
     if "bool-compared-with-int" in hz and cl["id"] in FLOW_IDS | PAIR_IDS:
         return "F03h:value-flow-bool-compared-with-constant-not-01"
@@ -1360,13 +1468,18 @@ def classify_cli(cl, f, lines):
 
 
 THEOREMS = ["Cppcheck.CondExpr.same_sound", "Cppcheck.CondExpr.same_sound_sim", "Cppcheck.CondExpr.same_sound_prefix_counterexample",
-            "Cppcheck.CondExpr.opposite_sound", "Cppcheck.CondExpr.opposite_not_sound", "Cppcheck.CondExpr.opposite_sound_counterexample",
-            "Cppcheck.CondExpr.multiCondition_opposite_sound", "Cppcheck.CondExpr.multiCondition_same_sound",
+            "Cppcheck.CondExpr.opposite_sound_partial", "Cppcheck.CondExpr.opposite_not_sound",
+            "Cppcheck.CondExpr.opposite_sound_counterexample",
+            "Cppcheck.CondExpr.multiCondition_opposite_given_unmodified_partial",
+            "Cppcheck.CondExpr.multiCondition_same_given_unmodified",
             "Cppcheck.CondExpr.outOfTypeRange_table_sound", "Cppcheck.CondExpr.outOfTypeRange_interval_sound",
-            "Cppcheck.CondExpr.outOfTypeRange_sound", "Cppcheck.CondExpr.outOfTypeRange_counterexample",
+            "Cppcheck.CondExpr.outOfTypeRange_sound_partial", "Cppcheck.CondExpr.outOfTypeRange_counterexample",
             "Cppcheck.CondExpr.bitand_compare_table_sound", "Cppcheck.CondExpr.bitor_compare_table_sound",
-            "Cppcheck.CondExpr.bitand_compare_sound", "Cppcheck.CondExpr.bitand_compare_sound_left",
-            "Cppcheck.CondExpr.bit_compare_prefix_counterexample",
+            "Cppcheck.CondExpr.bitand_compare_sound_partial", "Cppcheck.CondExpr.bitand_compare_sound_left_partial",
+            "Cppcheck.CondExpr.bitor_compare_sound_partial", "Cppcheck.CondExpr.bitor_compare_sound_left_partial",
+            "Cppcheck.CondExpr.bitor_compare_counterexample", "Cppcheck.CondExpr.bit_compare_prefix_counterexample",
+            "Cppcheck.CondExpr.findings_mem", "Cppcheck.CondExpr.finding_msg_verdict",
+            "Cppcheck.CondExpr.range_finding_sound_partial", "Cppcheck.CondExpr.comparison_finding_sound_partial",
             "Cppcheck.CondExpr.eval_inRange"]
 
 
@@ -1384,10 +1497,10 @@ def run(ctx, res):
     t1 = time.time()
     quick = ctx.tier != "thorough"
     corpus = load_corpus()
-    run_inprocess(ctx, res, 250 if quick else 8000, 32 if quick else 40, corpus.get("inprocess", []))
+    run_inprocess(ctx, res, 500 if quick else 8000, 24 if quick else 40, corpus.get("inprocess", []))
     t2 = time.time()
     # batches keep the instrumented translation units small (gcc's time and memory grow faster than linearly)
-    run_cli(ctx, res, 40 if quick else 250, 24 if quick else 32, corpus.get("cli", []), "c")
+    run_cli(ctx, res, 80 if quick else 250, 24 if quick else 32, corpus.get("cli", []), "c")
     if not quick:
         for _ in range(4):
             run_cli(ctx, res, 250, 32, [], "c")
